@@ -639,9 +639,27 @@ def case_st(draw):
     return case
 
 
+@st.composite
+def many_features_case(draw):
+    """A run over MANY small feature files (a few dozen to a few hundred): the reports hold all of them."""
+    n = draw(st.sampled_from([26, 33, 51, 64, 101, 130, 257]))
+    outs = ["pass", "pass", "pass", "fail", "undefined", "skip"]
+    feats = []
+    for _ in range(n):
+        feats.append({"tags": draw(gen.tags_st(1)), "items": [
+            {"k": "s", "tags": [], "steps": [{"kw": "Given", "o": draw(st.sampled_from(outs))}]}
+            for _ in range(draw(st.integers(1, 2)))]})
+    prog = {"features": feats, "cfg": draw(gen.cfg_st(flags=(), p_tags=0.3)), "big": "many-features"}
+    names = draw(st.lists(st.sampled_from(FORMATTERS), min_size=1, max_size=3))
+    if "json" not in names and "json.pretty" not in names:
+        names.insert(draw(st.integers(0, len(names))), draw(st.sampled_from(["json", "json.pretty"])))
+    return {"program": prog, "formatters": names}
+
+
 def explore(rec):
     quick = rec.tier == "quick"
     rec.hyp("formatter-runs", case_st(), 12000 if quick else 160000)
+    rec.hyp("many-features", many_features_case(), 64 if quick else 1500)
 
 
 def required_labels(tier):
